@@ -77,10 +77,6 @@ def one_case(rng, res, check_c11=True):
             res.evaluations += 1
             if not applies and any(st_.get("extra") is not None for st_ in h.steps):
                 res.count("honest_theorem_not_applicable_second_functionary")       # the theorem is about single-functionary steps
-            elif not applies and any(st_.get("sig_keyid") != st_["key"].keyid and st_["mode"] != "record" for st_ in h.steps):
-                # the link lies under the id of the signing subkey, not under the authorised key's own: honest_chain_verifies is
-                # stated for the file under the key's id (the stage theorems and the correspondence cover this form)
-                res.count("honest_theorem_not_applicable_file_under_subkey_id")
             elif not applies:
                 res.fail("disagree", {"op": "honest_check", "desc": desc},
                          {"op": "honest_check", "why": "the hypotheses of honest_chain_verifies do not hold on an honest history"})
